@@ -78,7 +78,7 @@ type boltClient struct {
 }
 
 func (b *boltClient) roundTrip(id uint32, frame []byte, parts func(frame []byte)) bool {
-	b.c.SetDeadline(time.Now().Add(4 * time.Second))
+	b.c.SetDeadline(time.Now().Add(generous))
 	parts(frame)
 	for {
 		typ, code, rid, content, err := readBoltFrame(b.c)
@@ -140,7 +140,7 @@ type http1Client struct {
 func (h *http1Client) exchange(up, gap int, send func(head, body []byte)) bool {
 	body := bytes.Repeat([]byte("0123456789abcdef"), 4)
 	head := []byte(fmt.Sprintf("POST /vh HTTP/1.1\r\nHost: vh.test\r\nservice: vh\r\nX-Up: %d\r\nX-Gap: %d\r\nContent-Type: text/plain\r\nContent-Length: %d\r\n\r\n", up, gap, len(body)))
-	h.c.SetDeadline(time.Now().Add(4 * time.Second))
+	h.c.SetDeadline(time.Now().Add(generous))
 	send(head, body)
 	resp, err := http.ReadResponse(h.br, nil)
 	if err != nil {
@@ -248,7 +248,7 @@ func (h *http2Client) roundTrip(up, gap int, body io.ReadCloser, n int) bool {
 	select {
 	case r := <-ch:
 		return r.ok
-	case <-time.After(4 * time.Second):
+	case <-time.After(generous):
 		return false
 	}
 }
